@@ -15,7 +15,10 @@ Contents == {"valid", "invalid", "strict_only", "extra_field", "unparseable", "e
    \* valid / invalid relative to the schema of the call; strict_only: only STRICT finds fault (an undeclared META field);
    \* extra_field: valid plus a field the schema block does not declare (an error under REJECT, advisory under WARN)
 Schemas == {"builtin_meta", "packaged_file", "generated", "generated_warn", "unknown", "pathlike", "lowercase",
-            "frozen_good", "frozen_bad_digest", "frozen_malformed", "latest_missing", "generated_rewritten", "generated_removed"}
+            "frozen_good", "frozen_bad_digest", "frozen_malformed", "latest_missing", "generated_rewritten", "generated_removed",
+            "generated_utf16", "generated_binary"}
+   \* generated_utf16 / generated_binary: the name resolves to a file that is not UTF-8 text (saved as UTF-16 with a BOM / arbitrary bytes):
+   \* no schema can be had from it, so nothing was validated
    \* generated_rewritten: the same process used the name before, when the file held a permissive schema; the file now holds the
    \* schema of class "generated".  generated_removed: the process used the name before; the file has been deleted since.
 Profiles == {"STRICT", "STANDARD", "LENIENT", "ULTRA"}
